@@ -637,6 +637,18 @@ class ZoneSpecifier:
                 logging.info('init_for_year(): cached')
             return
 
+        try:
+            self._fill_for_year(year)
+        except Exception:
+            # Invalidate the cache key. Otherwise the next call for the same
+            # year would return the partially filled state as if it were valid.
+            self.year = 0
+            raise
+
+    def _fill_for_year(self, year: int) -> None:
+        """Fill the Matches and Transitions for the given year. Sets the cache
+        key (self.year) first; init_for_year() resets it if this raises.
+        """
         self.year = year
         self.max_transition_buffer_size = 0
         self.matches = []
